@@ -77,7 +77,7 @@ BinOp(op, a, b) ==
   ELSE IF op = "ADD" /\ a.t = "str" /\ b.t = "float" THEN (IF FloatTextOk(b) THEN StrV(a.s \o FloatPlain(b)) ELSE OodV("float-text"))
   ELSE IF op = "ADD" /\ a.t = "str" /\ b.t = "nil" THEN a
   ELSE IF op = "MUL" /\ a.t = "str" /\ b.t = "int" THEN
-       (IF b.n < 0 THEN ErrV("negative repeat") ELSE IF b.n * Len(a.s) > 64 THEN OodV("long-string") ELSE StrV(Rep(a.s, b.n)))
+       (IF b.n < 0 THEN ErrV("MUL: negative repeat count") ELSE IF b.n * Len(a.s) > 64 THEN OodV("long-string") ELSE StrV(Rep(a.s, b.n)))
   ELSE IF op = "EQ" THEN BoolV(a = b)
   ELSE InvalidTypes(op, a, b)
 Not(v) == BoolV(Falsey(v))
